@@ -96,8 +96,17 @@ var kernelSpecs = []kernelSpec{
 	{Name: "doExpriedCalls_checkTimeExpried", Pkg: "server", Recv: "LockDB", Func: "checkTimeExpried", Ret: "List (List String)", Target: "self.doExpried", Kind: "callargs"},
 	{Name: "doTimeOutCalls_checkMillisecondTimeOut", Pkg: "server", Recv: "LockDB", Func: "checkMillisecondTimeOut", Ret: "List (List String)", Target: "self.doTimeOut", Kind: "callargs"},
 	{Name: "doTimeOutCalls_checkTimeTimeOut", Pkg: "server", Recv: "LockDB", Func: "checkTimeTimeOut", Ret: "List (List String)", Target: "self.doTimeOut", Kind: "callargs"},
+	// client package: how a Database's default flags are merged into the packed timeout / expried words of every primitive it builds
+	{Name: "clientMergeTimeoutFlag", Pkg: "client", Recv: "Database", Func: "mergeTimeoutFlag", Ret: "Nat",
+		Params: []string{"timeout : Nat32", "defT : Nat16", "defE : Nat16"},
+		Map:    map[string]string{"timeout": "timeout", "self.defaultTimeoutFlag": "defT", "self.defaultExpriedFlag": "defE"}},
+	{Name: "clientMergeExpriedFlag", Pkg: "client", Recv: "Database", Func: "mergeExpriedFlag", Ret: "Nat",
+		Params: []string{"expried : Nat32", "defT : Nat16", "defE : Nat16"},
+		Map:    map[string]string{"expried": "expried", "self.defaultTimeoutFlag": "defT", "self.defaultExpriedFlag": "defE"}},
 	{Name: "getMajorityMemberCount", Pkg: "server", Recv: "ArbiterManager", Func: "GetMajorityMemberCount", Ret: "Nat", Params: nil, Map: nil},
 }
+
+var kernelClientPkg *pkgInfo // set by main: the client package, for kernels with Pkg == "client"
 
 type ktr struct {
 	spec   *kernelSpec
@@ -325,6 +334,19 @@ func (k *ktr) expr(e ast.Expr) (string, string, error) { // returns Lean term, t
 				r = "(" + r + " % " + pow2(w) + ")" // Go's unsigned arithmetic wraps
 			}
 			return r, ta, nil
+		case token.SHL, token.SHR:
+			// shift of an unsigned value by a literal: wraps modulo 2^w exactly as Go does
+			if tb != "Lit" || ta == "Int" || ta == "Bool" || ta == "Lit" {
+				return "", "", k.errf(e, "only `unsigned << literal` / `>> literal` is translated")
+			}
+			w := natWidth(ta)
+			if v.Op == token.SHL {
+				if w == 0 {
+					return "", "", k.errf(e, "left shift of a 64-bit value is not translated (wrap-around)")
+				}
+				return "((" + a + " <<< " + b + ") % " + pow2(w) + ")", ta, nil
+			}
+			return "(" + a + " >>> " + b + ")", ta, nil
 		case token.AND, token.OR:
 			coerce()
 			if err := mixed(); err != nil {
@@ -492,6 +514,9 @@ func extractKernels(proto, server *pkgInfo, out *Output, fail func(error)) {
 		p := server
 		if spec.Pkg == "protocol" {
 			p = proto
+		}
+		if spec.Pkg == "client" {
+			p = kernelClientPkg
 		}
 		if p == nil {
 			continue
